@@ -141,6 +141,15 @@ def answer (line : String) : String :=
       | "blockers1", [n, pp] => Gen.moveAroundBlockersOne n (pp : Rat) draws
       | "blockers2", [n, pp] => Gen.moveAroundBlockersTwo n (pp : Rat) draws
       | _, _ => none
+    let bres : Option (Option (BinomialProblem × Nat)) :=
+      match name, params with
+      | "binbin", [a, b, sv, pp, lp] => some (Gen.binomialTimesBinomial a b (sv == 1) (pp : Rat) (lp : Rat) draws)
+      | "binmono", [a, b, sv, pp, lp] => some (Gen.binomialTimesMonomial a b (sv == 1) (pp : Rat) (lp : Rat) draws)
+      | _, _ => none
+    match bres with
+    | some none => "none"
+    | some (some (p, cx)) => s!"cx={cx} ok={p.ok} like=true " ++ " ".intercalate ("toks" :: p.toks.map Tok.toWire)
+    | none =>
     match res with
     | none => "none"
     | some (p, cx) => s!"cx={cx} ok={p.ok} like={p.promisesLike} " ++ " ".intercalate ("toks" :: p.toks.map Tok.toWire)
